@@ -10,6 +10,7 @@ import KadDHT.Driver.C13
 import KadDHT.Driver.C01
 import KadDHT.Driver.C01v
 import KadDHT.Driver.C02v
+import KadDHT.Driver.C03
 open KadDHT.Driver
 
 def main (args : List String) : IO UInt32 := do
@@ -17,6 +18,8 @@ def main (args : List String) : IO UInt32 := do
   | ["C18"] => runPure C18.handle; return 0
   | ["C18v"] => runPure C18v.handle; return 0
   | ["C19"] => runLoop C19.step {}; return 0
+  | ["C03"] => runLoop C03.step (); return 0
+  | ["C03v"] => runLoop C03.verdict (); return 0
   | ["C02v"] => runLoop C02v.step {}; return 0
   | ["C01v"] => runLoop C01v.step {}; return 0
   | ["C01"] => runLoop C01.step {}; return 0
